@@ -148,7 +148,23 @@ pub fn pipeline_inputs() -> Vec<PInput> {
         g.push(v((0.5 + 0.8191725 * t).fract(), (0.5 + 0.6710436 * t).fract(), (0.5 + 0.5497005 * t).fract()));
     }
     inputs.push(h("H 3D reflective unit n=12", 3, false, v(0., 0., 0.), unit, g.clone()));
-    inputs.push(h("H 3D periodic unit n=12", 3, true, v(0., 0., 0.), unit, g));
+    inputs.push(h("H 3D periodic unit n=12", 3, true, v(0., 0., 0.), unit, g.clone()));
+    // bitwise the same generator slice (unused coordinates included) under another dimensionality, and the same
+    // positions in another order: whatever is remembered about "these generators" must include the dimensionality
+    // and the order (indices)
+    inputs.push(h("H 2D reflective unit, the slice of the 3D n=12 input", 2, false, v(0., 0., 0.), unit, g.clone()));
+    inputs.push(h("H 2D periodic unit, the slice of the 3D n=12 input", 2, true, v(0., 0., 0.), unit, g.clone()));
+    inputs.push(h("H 1D reflective unit, the slice of the 3D n=12 input", 1, false, v(0., 0., 0.), unit, g.clone()));
+    let mut gr = g.clone();
+    gr.reverse();
+    inputs.push(h("H 3D reflective unit n=12, reversed order", 3, false, v(0., 0., 0.), unit, gr));
+    let mut gs = g.clone();
+    gs.swap(3, 8);
+    inputs.push(h("H 3D reflective unit n=12, generators 3 and 8 swapped", 3, false, v(0., 0., 0.), unit, gs.clone()));
+    inputs.push(h("H 3D periodic unit n=12, generators 3 and 8 swapped", 3, true, v(0., 0., 0.), unit, gs));
+    let mut gm = g.clone();
+    gm[5] = v(0.31, 0.62, 0.47);
+    inputs.push(h("H 3D reflective unit n=12, generator 5 moved", 3, false, v(0., 0., 0.), unit, gm));
     // the 2x2x2 lattice of the explored inputs (exact ties: the exact predicate is reached) in a larger, shifted box:
     // same generator indices and positions, different integer grid
     let mut g = vec![];
@@ -179,7 +195,33 @@ pub fn pipeline_inputs() -> Vec<PInput> {
     let only5: Vec<bool> = (0..16).map(|i| i == 5).collect();
     inputs.push(PInput { name: "H 2D 4x4 lattice, only cell 5, periodic unit box", dim: 2, periodic: true, anchor: v(0., 0., 0.), width: unit, gens: g4.clone(), mask: Some(only5.clone()), explore: false });
     inputs.push(PInput { name: "H 2D 4x4 lattice, only cell 5, periodic box slid by (-0.01, 0, 0)", dim: 2, periodic: true, anchor: v(-0.01, 0., 0.), width: unit, gens: g4, mask: Some(only5), explore: false });
+    // big inputs (generator / face counts of ordinary use, beyond any "large mesh" threshold a parallel fast path could
+    // have): explored with the coarse partition alphabet of the executor (cuts only at a menu of positions), one
+    // deviation; not part of the all-pairs call histories (see `is_big`)
+    let kron = |n: usize, dim: usize| -> Vec<DVec3> {
+        (0..n)
+            .map(|i| {
+                let t = (i + 1) as f64;
+                let f = v((0.5 + 0.819_172_513_396_164_4 * t).fract(), (0.5 + 0.671_043_606_703_789_2 * t).fract(), (0.5 + 0.549_700_477_901_970_2 * t).fract());
+                let f = v(1. / 64., 1. / 64., 1. / 64.) + f * (1. - 1. / 32.);
+                if dim == 2 {
+                    v(f.x, f.y, 0.)
+                } else {
+                    f
+                }
+            })
+            .collect()
+    };
+    inputs.push(PInput { name: "B 2D n=12000 uniform (more than 2^15 faces)", dim: 2, periodic: false, anchor: v(0., 0., 0.), width: unit, gens: kron(12000, 2), mask: None, explore: true });
+    inputs.push(PInput { name: "B 3D periodic n=4500 uniform (more than 2^15 faces)", dim: 3, periodic: true, anchor: v(0., 0., 0.), width: unit, gens: kron(4500, 3), mask: None, explore: true });
+    let bm: Vec<bool> = (0..3000).map(|i| i % 16 == 3).collect();
+    inputs.push(PInput { name: "B 3D n=3000, every 16th cell constructed", dim: 3, periodic: false, anchor: v(0., 0., 0.), width: unit, gens: kron(3000, 3), mask: Some(bm), explore: true });
     inputs
+}
+
+/// Big inputs are explored with the coarse partition alphabet and are left out of the all-pairs call histories.
+pub fn is_big(inp: &PInput) -> bool {
+    inp.gens.len() > 1000
 }
 
 #[derive(Default)]
